@@ -12,9 +12,9 @@ import (
 
 func init() {
 	Register(&Spec{
-		ID: "C16",
+		ID:          "C16",
 		Explanation: "Decides structural necessary conditions of deep copy on assignment: (R1) writePtr copies a struct into the destination message exactly when forceCopy is set, the source lives in another message, or the source is a list member (the three disjuncts lead to the allocation; the no-copy edge is the failure of all three), copies a list when forceCopy is set or the source lives in another message, and copyStruct always recurses with forceCopy = true; (R2) a capability pointer copied across messages is re-homed as NewInterface(dst, dst.msg.AddCap(client.AddRef())) only under 'different message'; (R3) copyStruct copies min(len) of the data sections and zeroes the rest of the destination, copies the common pointers, nulls the destination's extra pointers and ignores the source's extra ones; (R4) a copied list gets a fresh allocation of allocSize(), a copied composite tag word, element-wise copyStruct when elements hold pointers and a bulk copy otherwise, all with maxDepth on the fresh object. Does NOT decide value equality of the copy or independence under later mutation.",
-		Run: runC16,
+		Run:         runC16,
 	})
 }
 
